@@ -393,7 +393,7 @@ class ParameterFormatter(FileIOMixin, object):
 
             # replace scientific notation with power of ten (LaTeX only)
             if format_as_latex:
-                _display_string = re.sub(r"(-?\d*\.?\d+?)0*e\+?(-?[0-9]*[1-9]?)", r"\1\\times10^{\2}", _display_string)
+                _display_string = re.sub(r"(-?\d+\.?\d*)e\+?(-?\d+)", r"\1\\times10^{\2}", _display_string)
         return _display_string
 
 
